@@ -53,7 +53,7 @@ def _worker(args):
             except Exception as e:
                 fn.append({"function": f"{m}:{q}", "error": str(e)})
         return {"harness": f"{modname}:{h.name}", "hidx": hidx, "obs": [o.to_json() for o in obs], "stats": stats,
-                "functions": fn, "wall": time.time() - t0, "canary": bool(canary)}
+                "functions": fn, "wall": time.time() - t0, "canary": bool(canary), "desugared": dict(repo.desugared)}
     except Exception as e:
         return {"harness": f"{modname}#{hidx}", "hidx": hidx, "error": f"{type(e).__name__}: {e}",
                 "traceback": traceback.format_exc(), "obs": [], "stats": {}, "functions": [], "wall": time.time() - t0}
@@ -127,6 +127,16 @@ def do_replay(path):
     res = h.replay(data["witness"])
     print(json.dumps(res, indent=1, default=str))
     return 1 if res["violated"] else 0
+
+
+def _merge_desugar(results):
+    """what pyvc.desugar rewrote in the module text that was verified (comprehensions -> map/filter/lambda, for-loops ->
+    body function + __pyvc_for__); everything else is compiled as it stands in the tree under check"""
+    out = {}
+    for r in results:
+        for mod, st in (r.get("desugared") or {}).items():
+            out[mod] = st
+    return out
 
 
 def main():
@@ -303,6 +313,7 @@ def main():
             "cvc5 1.0.3 (on z3 unknown)", "CPython 3.12 executing the real source under shimmed builtins"],
         "explanation": prop.get("explanation", ""),
         "functions_under_contract": functions,
+        "source_rewrites_before_compile": _merge_desugar(results),
         "obligations_by_backend": backends,
         "solver_time_s": solver_time,
         "paths": sum(r["stats"].get("paths", 0) for r in results),
